@@ -907,9 +907,8 @@ func (e *Env) call(n *ast.CallExpr) Val {
 						return Val{K: VConst, T: types.Typ[types.Int], C: constant.MakeInt64(at.Len())}
 					}
 				}
-				if _, ok := v.T.Underlying().(*types.Map); ok {
-					f := t.declareFun("map.len", []string{"Int"}, t.mode.idxSort())
-					return scalar(types.Typ[types.Int], sx(f, v.S))
+				if mt, ok := v.T.Underlying().(*types.Map); ok {
+					return scalar(types.Typ[types.Int], t.mapLenTerm(e.st, mt, v.S))
 				}
 			case VConst:
 				if v.C != nil && v.C.Kind() == constant.String {
